@@ -250,7 +250,9 @@ func (x *Exec) evalSel(c *evalCtx, s ESel) (Val, error) {
 		f := su.Field(i)
 		if f.Name() == s.Field {
 			a := &Addr{Prefix: fieldPrefix(pt, f.Name()), Ref: base.T, T: f.Type()}
-			return x.loadAddrPure(st, a), nil
+			v := x.loadAddrPure(st, a)
+			x.boundSpecRef(c, st, a, v)
+			return v, nil
 		}
 	}
 	// promoted fields through embedded pointers/structs (one level)
@@ -332,7 +334,7 @@ func (x *Exec) evalIndex(c *evalCtx, e EIndex) (Val, error) {
 	switch {
 	case base.K == VSlice:
 		et := base.GoT.Underlying().(*types.Slice).Elem()
-		ix := Add(base.Off, idx.T)
+		ix := x.idxTerm(base.Off, idx.T)
 		return x.loadAddrPure(st, &Addr{Prefix: elemPrefix(et), Ref: base.Ref, Idx: &ix, T: et}), nil
 	case base.K == VScalar && base.T.Sort == SStr:
 		return strV(app("str.at", SStr, base.T, idx.T)), nil
@@ -494,6 +496,8 @@ func (x *Exec) evalCall(c *evalCtx, call ECall) (Val, error) {
 		return intV(Ite(Le(a[0].T, a[1].T), a[0].T, a[1].T)), nil
 	case "max":
 		return intV(Ite(Ge(a[0].T, a[1].T), a[0].T, a[1].T)), nil
+	case "reliable":
+		return boolV(BoolT(!x.Faulty)), nil
 	case "fresh":
 		// allocated during this call
 		r := a[0].T
@@ -556,6 +560,20 @@ func (x *Exec) evalCall(c *evalCtx, call ECall) (Val, error) {
 	}
 	if v, ok, err := x.evalSpecBuiltin(c, call.Fn, a); ok || err != nil {
 		return v, err
+	}
+	if pd, ok := x.CS.Preds[call.Fn]; ok {
+		if len(pd.Params) != len(a) {
+			return Val{}, fmt.Errorf("%s expects %d arguments", pd.Name, len(pd.Params))
+		}
+		c2 := *c
+		c2.bound = map[string]Val{}
+		for k, v := range c.bound {
+			c2.bound[k] = v
+		}
+		for i, pn := range pd.Params {
+			c2.bound[pn] = a[i]
+		}
+		return x.evalExpr(&c2, pd.Body)
 	}
 	if sf, ok := x.CS.SpecFuncs[call.Fn]; ok {
 		var sorts []string
@@ -632,8 +650,8 @@ func (x *Exec) evalSeqEq(c *evalCtx, a []Val) (Val, error) {
 	et := a[0].GoT.Underlying().(*types.Slice).Elem()
 	i := "i!q" + strconv.Itoa(x.uniq())
 	it := Term{i, SInt}
-	i0 := Add(a[0].Off, it)
-	i1 := Add(a[1].Off, it)
+	i0 := x.idxTerm(a[0].Off, it)
+	i1 := x.idxTerm(a[1].Off, it)
 	e0 := x.loadAddrPure(st, &Addr{Prefix: elemPrefix(et), Ref: a[0].Ref, Idx: &i0, T: et})
 	e1 := x.loadAddrPure(st, &Addr{Prefix: elemPrefix(et), Ref: a[1].Ref, Idx: &i1, T: et})
 	eq, err := x.valEq(c, e0, e1)
@@ -642,4 +660,50 @@ func (x *Exec) evalSeqEq(c *evalCtx, a []Val) (Val, error) {
 	}
 	body := Implies(And(Ge(it, IntT(0)), Lt(it, a[0].Len)), eq)
 	return boolV(And(Eq(a[0].Len, a[1].Len), Term{"(forall ((" + i + " Int)) " + body.S + ")", SBool})), nil
+}
+
+// boundSpecRef: heap well-formedness facts for references read inside contract
+// expressions: an object that existed at entry only references objects that
+// existed at entry (as long as the field array has not been written).
+func (x *Exec) boundSpecRef(c *evalCtx, st *State, a *Addr, v Val) {
+	if c.st == nil || x.Mode == "summary" {
+		return
+	}
+	var r Term
+	switch v.K {
+	case VScalar:
+		if v.T.Sort != SInt {
+			return
+		}
+		switch v.GoT.Underlying().(type) {
+		case *types.Pointer, *types.Slice, *types.Map:
+			r = v.T
+		default:
+			return
+		}
+	case VSlice:
+		r = v.Ref
+	default:
+		return
+	}
+	if _, lit := litInt(r); lit {
+		return
+	}
+	if strings.Contains(r.S, "!q") {
+		return // mentions a bound variable
+	}
+	for _, cp := range comps(a.T) {
+		if _, w := st.Heap[a.Prefix+cp.Suffix]; w {
+			return
+		}
+	}
+	o, known := c.st.Older[a.Ref.S]
+	if !(isEntrySymbol(a.Ref.S) || (known && o == 0)) {
+		return
+	}
+	if _, done := c.st.Older[r.S]; done {
+		return
+	}
+	c.st.assume(And(Ge(r, IntT(0)), Le(r, c.st.WM0)))
+	c.st.Older[r.S] = 0
 }
